@@ -156,16 +156,23 @@ impl Decoder<'_> {
     /// null character (`\0`), or reaching the limit or end of the stream
     /// and erroring out.
     pub fn string(&mut self) -> Result<String> {
-        // If we have a limit, then don't search further than we need to.
-        let slice = match self.limit {
-            Some(limit) => &self.bytes[self.offset..(self.offset + limit * WORD_NUM_BYTES)],
-            None => &self.bytes[self.offset..],
+        // If we have a limit, then don't search further than we need to, and
+        // never further than the end of the stream.
+        let rest = self.bytes.get(self.offset..).unwrap_or(&[]);
+        let window = match self.limit {
+            Some(limit) => limit.saturating_mul(WORD_NUM_BYTES),
+            None => rest.len(),
         };
+        let slice = &rest[..window.min(rest.len())];
         // Find the null terminator.
         let first_null_byte = slice.iter().position(|&c| c == 0).ok_or(match self.limit {
-            Some(_) => Error::LimitReached(self.offset + slice.len()),
-            None => Error::StreamExpected(self.offset),
+            Some(_) if window <= rest.len() => Error::LimitReached(self.offset + slice.len()),
+            _ => Error::StreamExpected(self.offset),
         })?;
+        // The word holding the terminator has to be inside the stream as well.
+        if (first_null_byte / WORD_NUM_BYTES + 1) * WORD_NUM_BYTES > slice.len() {
+            return Err(Error::StreamExpected(self.offset));
+        }
         // Validate the string is utf8.
         let result = str::from_utf8(&slice[..first_null_byte])
             .map_err(|e| Error::DecodeStringFailed(self.offset, format!("{}", e)))?;
